@@ -64,7 +64,9 @@ def jobs(tier):
     # from the table before it holds the read lock is stale; the first bucket lock must be the one of the key's bucket
     # in the generation that is current under the read lock
     for op in ("find", "remove", "insert_impl", "nolock_handle", "nolock_key"):
-        for ng, nb0 in ([(1, 1), (2, 1)] if full and not op.startswith("nolock") else [(1, 1)]):
+        # find.pre_resize.g2 = find walking TWO old generations: like find.g3 it does not finish (back end gives up with
+        # status ERROR after ~8 min even with 1 item and 12 GB), so it is not part of any tier
+        for ng, nb0 in ([(1, 1), (2, 1)] if full and op in ("remove", "insert_impl") else [(1, 1)]):
             J.append(map_job(op, ng, nb0, timeout=to, env_pre=1))
     for nb in ((1, 2) if full else (1,)):
         J.append(Job("init.b%d" % nb, "h_ht.c", entry="h_init", defines={"NB0": nb, "NG": 1, "NI": 3}, overlay=REHASH_OVERLAY,
@@ -133,7 +135,8 @@ MANIFEST = dict(
          "lock discipline -> 'other', not 'proof'.",
     note="Not decided: linearizability under real interleavings (argued from the lock discipline; rwlock is C33; only 'another thread resized' at my lock "
          "acquisitions is modelled as interference); concurrent unlinking of emptied generations; tables with more than 3 items / 16 buckets; find/remove (migration, unlinking) across MORE THAN ONE old generation "
-         "(3-generation jobs exceed the time/memory budget); 1..16 threads are not enumerated (rely/guarantee style, one thread + environment); fini and stat are not under contract; "
+         "(find.g3, remove.g3 and find.pre_resize.g2 are NOT in any tier: the back end runs out of memory / reports ERROR; only "
+         "remove.pre_resize.g2 covers a removal behind two newer generations, thorough tier); 1..16 threads are not enumerated (rely/guarantee style, one thread + environment); fini and stat are not under contract; "
          "universal_rehash is abstracted by its contract (range proved, functionality by inspection).",
     technique="inductive data-structure invariant + pre/post contracts + ghost lock discipline on the real parsec_hash_table.c, discharged by "
               "CBMC (shape-bounded); callee universal_rehash replaced by its contract via the driver's overlay; contract discharged separately",
